@@ -51,6 +51,9 @@ func ReadPostings(d segment.TermDictionary, term []byte, except *roaring.Bitmap)
 	return hits, pl.Count(), nil
 }
 
+// CheckDictCounts makes Dump also compare DictEntry.Count with the postings count (C08's concern).
+var CheckDictCounts = false
+
 // Dump observes the complete query surface of a segment through its public API and
 // canonicalises it (sets sorted; nothing more than the properties fix is kept ordered).
 func Dump(s segment.Segment) (c *Content, err error) {
@@ -80,7 +83,7 @@ func Dump(s segment.Segment) (c *Content, err error) {
 				if uint64(len(hits)) != cnt {
 					return fmt.Errorf("Count()=%d but %d hits for %s/%q", cnt, len(hits), f, e.Term)
 				}
-				if e.Count != cnt {
+				if CheckDictCounts && e.Count != cnt {
 					return fmt.Errorf("DictEntry.Count=%d but postings Count()=%d for %s/%q", e.Count, cnt, f, e.Term)
 				}
 				fd.Terms = append(fd.Terms, TermHits{Term: e.Term, Hits: hits})
